@@ -132,15 +132,22 @@ func checkC02(c *Ctx) {
 				hits["EXIT"] = true
 			}
 		}
+		if _, nv := sub.rootOnceWith("ROOT-ONCE", sub.AllFuncs(), func(g *types.Func) bool { return g.Name() == "SetRoot" }); nv == 1 {
+			hits["ROOT"] = true
+		}
+		c.Control("ROOT-ONCE", hits["ROOT"], "fixture.C02RootTwice sets the root under a nil test of a variable refilled from a stack (and C02RootLatched, guarded by a counter, is accepted)")
 		c.Control("CONTRA-IDX-1", hits["IDX1"], "fixture.C02IdxAfterLenTest indexes after a non-leaving length test")
 		c.Control("CONTRA-IDX-2", hits["IDX2"], "fixture.C02IdxAfterDecrement indexes after decrementing past its guard")
 		c.Control("CONTRA-NIL", hits["NIL"], "fixture.C02NilBelief dereferences a pointer it compares with nil")
 		c.Control("EXIT", hits["EXIT"], "fixture.C02ExitDeep reaches os.Exit through a helper")
 	}
+	c.Decides("ROOT-ONCE: a reader sets the root of the tree it builds at most once per call: the guard of SetRoot inside the token loop is a latch (nil test of a variable only ever assigned freshly created nodes, zero test of a pure increment counter, or a flag only ever set), and the recursive builders pass a node just created to every inner call - otherwise nodes are orphaned and the delivered tree's node ids are not 0..n-1, which id-indexed traversals index with")
+	c.Extra["setroot_sites"] = c.rootOnce("ROOT-ONCE", readerPkgs...)
+	c.Floor("ROOT-ONCE", 3)
 	c.Floor("EOFLOOP", 40)
 	c.Floor("RECUR", 2)
 	c.Floor("NIL-DECODE", 2)
 	c.Floor("GO-CLOSE", 1)
 	c.Floor("ERRFLOW", 5)
-	c.Floor("CONTROL", 4)
+	c.Floor("CONTROL", 5)
 }
